@@ -20,6 +20,6 @@ PROP = {
 META = {
     "design_ref": "DESIGN.md section 4, C01",
     "technique": "PBT over generated multi-thread submission/phase scenarios (rapidcheck), history invariants (exactly-once, thread, per-submitter order, cancel consistency, nothing dropped), bounded-liveness sentinel for lost wake-ups, ThreadSanitizer + ASan builds, both back-ends",
-    "level_text": "Generated scenarios: 0-4 submitter threads using runInLoop with generated pauses, loop-thread phases (preload via runInLoop/runNext/run, runLoop(kForever) ended by a cross-thread exit task, runLoop(kOnce), cleanup(), re-runs, destruction), task behaviours (children via the three entry points, cancel of pending/executing-batch/foreign tasks, exitLoop, busy). The oracle checks the history after the loop is destroyed. Exploration: interleavings are sampled, not enumerated.",
+    "level_text": "Generated scenarios: 0-4 submitter threads using runInLoop with generated pauses, loop-thread phases (preload via runInLoop/runNext/run, runLoop(kForever) ended by a cross-thread exit task, runLoop(kOnce), cleanup(), re-runs, destruction), task behaviours (children via the three entry points, cancel of pending/executing-batch/foreign tasks, exitLoop, busy). The oracle checks the history after the loop is destroyed. Exploration: interleavings are sampled, not enumerated. Later additions (seeding rounds): tasks that cancel their own id while running, a perpetual runNext() chain that keeps the loop busy while the cross-thread exit task arrives, Loop::run() and the const& overloads called from another thread while the loop is certainly running and otherwise idle (bounded wake-up latency, no other wake-up source for 3 s), and the loop thread handing a callable to runInLoop() from inside a runNext() task on an idle loop.",
     "level_note": "Trusted: TSan/ASan, the harness's atomics-based event log. Limits L2/L3 of DESIGN.md section 1 apply (lost wake-ups are detected as a 2 s bound that must reproduce in isolation).",
 }
